@@ -141,7 +141,7 @@ def accepted_formats(ctx):
 
 
 def tables_for(f, ctx, k):
-    alpha = sorted(set(["x", " ", "\n", "\r", f.item_delimiter, f.quote_character, f.escape_character]))
+    alpha = sorted(set(["x", " ", "\n", "\r", "\x00", f.item_delimiter, f.quote_character, f.escape_character]))
     cells = [""] + alpha + [a + b for a in alpha for b in alpha]
     # single-row tables of 1-2 columns over all cells up to length 2 (rotating selection per configuration keeps the quick tier bounded)
     step = 1 if ctx.thorough else 7
